@@ -359,6 +359,9 @@ def fixed_frozen_write_cases(g):
     g.emit("mkrepr %s cow=0;%s" % (x, slots))
     g.emit("mkrepr %s cow=0;5:A:1,3;11:A:7;14:A:9" % o)
     g.emit("mkrepr %s cow=0;2:R:0+65535;8:R:0+65535" % o2)
+    o4, o5 = g.fresh("fw"), g.fresh("fw")
+    g.emit("mkrepr %s cow=0;2:R:0+65535;5:A:1,3" % o4)                 # empties the first chunk, thins the second, ends there
+    g.emit("mkrepr %s cow=0;2:A:5,9;5:R:0+65535;8:A:10,11" % o5)       # thins the first, empties the second, thins the third
     steps = [["remr %s %d %d" % ("%s", 2 * CH, 3 * CH)], ["remr %s %d %d" % ("%s", 8 * CH, 9 * CH)], ["remr %s %d %d" % ("%s", 14 * CH, 15 * CH)],
              ["rem %%s %d" % (11 * CH + 7)], ["crem %%s %d" % (11 * CH + 7)], ["flip %%s %d %d" % (11 * CH + 7, 11 * CH + 8)],
              ["iand %%s %s" % o], ["iandnot %%s %s" % o2], ["clear %s", "add %%s %d" % (3 * CH)], ["remr %%s 0 %d" % (12 * CH)],
@@ -366,6 +369,11 @@ def fixed_frozen_write_cases(g):
              # content-neutral maintenance on the view, then writes into the chunks it did not convert
              ["opt %s", "add %%s %d" % (8 * CH + 500), "rem %%s %d" % (8 * CH + 50), "add %%s %d" % (14 * CH + 5), "rem %%s %d" % (14 * CH + 5)],
              ["opt %s", "opt %s", "add %%s %d" % (8 * CH + 2000), "add %%s %d" % (2 * CH + 6), "rem %%s %d" % (5 * CH + 2)],
+             # in-place differences whose subtrahend ENDS before the view does: a chunk is emptied, a later one is matched and kept, the
+             # unmatched tail slides down into the slots of matched chunks; then writes into every survivor
+             ["iandnot %%s %s" % o4] + ["%s %%s %d" % (op, v) for v in (8 * CH + 500, 8 * CH + 50, 11 * CH + 9, 14 * CH + 7, 5 * CH + 2) for op in ("add", "rem")],
+             ["iandnot %%s %s" % o5] + ["%s %%s %d" % (op, v) for v in (11 * CH + 9, 8 * CH + 500, 14 * CH + 7, 2 * CH + 300) for op in ("rem", "add")],
+             ["iand %%s %s" % o5] + ["%s %%s %d" % (op, v) for v in (8 * CH + 10, 2 * CH + 5) for op in ("rem", "add")],
              # an in-place difference that empties the FIRST chunks (the survivors slide down), then writes into the survivors
              ["iandnot %%s %s" % o2, "add %%s %d" % (11 * CH + 9), "add %%s %d" % (5 * CH + 1), "rem %%s %d" % (14 * CH + 7), "add %%s %d" % (14 * CH + 7)]]
     for j, st in enumerate(steps):
